@@ -23,6 +23,8 @@ def main():
                 first = f[0].replace("no action of the specification explains: ", "")[:140]
                 break
         hist = m.get("history", "")
+        if m.get("retired"):
+            hist = (hist + " RETIRED: " + m["retired"]).strip()
         rows.append((name, m.get("property"), m.get("summary", "").replace("|", "/").replace("\n", " ")[:260],
                      m.get("needs", "").replace("|", "/").replace("\n", " ")[:200],
                      ", ".join(caught) or "-", ", ".join(silent) or "-", first.replace("|", "/"), hist.replace("|", "/")))
